@@ -59,6 +59,37 @@ def _b64val(o):
     return lbytes.pw_map(o, _B64VAL, (0, -1))
 
 
+# Lemma supplied to the solver for every base64 digit the encoder port produces: the digit's value is
+# recovered from its character, also after the '/' -> ',' -> '/' substitutions that modified_base64 /
+# modified_unbase64 apply.  The formula is VALID (proved by z3 for all integers in selftest, and checked
+# on every value), so asserting it cannot exclude any behaviour; it only spares z3 from re-deriving the
+# 5-way case split of every digit inside one big query (measured: astral round trip 36 s -> 0.2 s).
+_SLASH2COMMA = [(47, 47, 0, 44)]
+_COMMA2SLASH = [(44, 44, 0, 47)]
+
+
+def _b64_lemmas(zv):
+    """z3 formulas over the integer term zv (a base64 digit value)"""
+    import z3
+    zo = lbytes.pw_z3(zv, _B64CHAR, (0, 0))
+    viacomma = lbytes.pw_z3(lbytes.pw_z3(zo, _SLASH2COMMA, (1, 0)), _COMMA2SLASH, (1, 0))
+    rng = z3.And(zv >= 0, zv <= 63)
+    return [z3.Implies(rng, lbytes.pw_z3(zo, _B64VAL, (0, -1)) == zv),
+            z3.Implies(rng, lbytes.pw_z3(viacomma, _B64VAL, (0, -1)) == zv)]
+
+
+def _b64digit(v):
+    """character of base64 digit v"""
+    o = _b64char(v)
+    if not lbytes._is_conc(o):
+        from crosshair.statespace import context_statespace
+        from crosshair.tracers import NoTracing
+        with NoTracing():
+            for f in _b64_lemmas(v.var):
+                context_statespace().add(f)
+    return chr(o)
+
+
 def _utf16be_units(text):
     """UTF-16 code units of text; surrogate code points raise as the C codec does"""
     units = []
@@ -90,21 +121,21 @@ def _b2a_base64_text(data):
     i = 0
     while i + 3 <= n:
         x, y, z = ord(data[i]), ord(data[i + 1]), ord(data[i + 2])
-        out.append(chr(_b64char(x // 4)))
-        out.append(chr(_b64char((x % 4) * 16 + y // 16)))
-        out.append(chr(_b64char((y % 16) * 4 + z // 64)))
-        out.append(chr(_b64char(z % 64)))
+        out.append(_b64digit((x // 4)))
+        out.append(_b64digit(((x % 4) * 16 + y // 16)))
+        out.append(_b64digit(((y % 16) * 4 + z // 64)))
+        out.append(_b64digit((z % 64)))
         i += 3
     if n - i == 1:
         x = ord(data[i])
-        out.append(chr(_b64char(x // 4)))
-        out.append(chr(_b64char((x % 4) * 16)))
+        out.append(_b64digit((x // 4)))
+        out.append(_b64digit(((x % 4) * 16)))
         out.append("==")
     elif n - i == 2:
         x, y = ord(data[i]), ord(data[i + 1])
-        out.append(chr(_b64char(x // 4)))
-        out.append(chr(_b64char((x % 4) * 16 + y // 16)))
-        out.append(chr(_b64char((y % 16) * 4)))
+        out.append(_b64digit((x // 4)))
+        out.append(_b64digit(((x % 4) * 16 + y // 16)))
+        out.append(_b64digit(((y % 16) * 4)))
         out.append("=")
     out.append("\n")
     return "".join(out)
@@ -138,7 +169,7 @@ def _utf7_encode(text, errors="strict"):
             if cp < 128 and lbytes._char_in(ch, _U7_NOSHIFT):
                 # shifting out
                 if bits:
-                    out.append(chr(_b64char(buf * (2 ** (6 - bits)))))
+                    out.append(_b64digit((buf * (2 ** (6 - bits)))))
                     buf = 0
                     bits = 0
                 inshift = False
@@ -167,10 +198,10 @@ def _utf7_encode(text, errors="strict"):
             bits += 16
             while bits >= 6:
                 bits -= 6
-                out.append(chr(_b64char(buf // (2 ** bits))))
+                out.append(_b64digit((buf // (2 ** bits))))
                 buf = buf % (2 ** bits)
     if bits:
-        out.append(chr(_b64char(buf * (2 ** (6 - bits)))))
+        out.append(_b64digit((buf * (2 ** (6 - bits)))))
     if inshift:
         out.append("-")
     return "".join(out)
@@ -434,6 +465,13 @@ def selftest():
     import z3
     zv = z3.Int("v")
     zc, zo = lbytes.pw_z3(zv, _B64CHAR, (0, 0)), lbytes.pw_z3(zv, _B64VAL, (0, -1))
+    for f in _b64_lemmas(zv):
+        sol = z3.Solver()
+        sol.add(z3.Not(f))
+        assert sol.check() == z3.unsat, f
+        for x in range(-3, 70):
+            assert z3.is_true(z3.simplify(z3.substitute(f, (zv, z3.IntVal(x))))), x
+        n += 74
     for o in range(-2, 300):
         want = _B64.index(chr(o)) if 0 <= o < 256 and chr(o) in _B64 else -1
         assert _b64val(o) == want, o
